@@ -299,6 +299,31 @@ EvalIpParse(t, outs) ==
   /\ outs = RefIpParse(t)
   /\ Record(<<"ipparse", <<t>>>>, outs)
 
+(* The caller and its slices.  Some entry points take or return a slice (the  *)
+(* byte string / the address passed; the bytes ToBytes and ToBytesFrInt      *)
+(* return).  A slice handed over belongs to the caller: writing into it --   *)
+(* or into the slice it passed, once the call has returned -- is no input of *)
+(* any function, so no value changes (an implementation that keeps such a    *)
+(* slice in a cache, or hands out its own buffer, does not refine this).     *)
+(* SliceOf(k, f): the content slice f of an evaluation of key k had when the *)
+(* call returned; f = "input" is the slice passed (the first argument).      *)
+HasSlice(k, f) == Known(k) /\ (f = "input" \/ f \in DOMAIN memo[k])
+SliceOf(k, f) == IF f = "input" THEN k[2][1] ELSE memo[k][f]
+
+\* the caller overwrites, with `after`, a slice that held `before`
+Scribble(k, f, before, after) ==
+  /\ HasSlice(k, f)
+  /\ before = SliceOf(k, f)
+  /\ Len(after) = Len(before) /\ after # before
+  /\ UNCHANGED memo
+
+\* slices of an earlier evaluation of k that the caller has not written to are read again
+\* (other calls have been made meanwhile): they hold what they held
+Held(k, outs) ==
+  /\ Known(k)
+  /\ \A f \in DOMAIN outs : HasSlice(k, f) /\ outs[f] = SliceOf(k, f)
+  /\ UNCHANGED memo
+
 \* purity as a state property: a step never changes what a key returned
 Pure == [][\A k \in DOMAIN memo : k \in DOMAIN memo' /\ memo'[k] = memo[k]]_vars
 =============================================================================
